@@ -34,6 +34,14 @@ static double minAbsW(const MonG& X) {
   return m;
 }
 
+// difference of the rotation blocks only: the rotation part of log is well conditioned everywhere (also at a half turn, where the
+// translation part is not), so exp(log X) must reproduce the rotation of X to rounding for every valid X
+static ref::LD rotDiff(const ref::GM& A, const ref::GM& B) {
+  const ref::Group& g = RG(); ref::LD m = 0;
+  for (int b = 0; b < g.nb(); ++b) { int n = g.el[b].rot; if (n) m = std::max(m, (A[b].topLeftCorner(n, n) - B[b].topLeftCorner(n, n)).cwiseAbs().maxCoeff()); }
+  return m;
+}
+
 static void checkElement(const MonG& X, const std::string& route, const std::string& label, long long i, const Args& a) {
   const ref::Group& g = RG();
   const std::string cellkey = GN() + "/" + route + "/" + label;
@@ -53,6 +61,10 @@ static void checkElement(const MonG& X, const std::string& route, const std::str
   double e3 = (double)(ref::gdiff(ref::gexp(g, tl), M) / scale);
   LOG.cell("log/" + cellkey, e3, th > 0);
   LOG.maxi("explog-err/" + GN(), e3);
+  double e3r = (double)rotDiff(ref::gexp(g, tl), M);
+  LOG.maxi("explog-rotation-err/" + GN(), e3r);
+  if (!(e3r <= 128 * Sc<MonS>::u()))   // observed <= 4 ulp over all routes
+    LOG.viol("exp-of-log-rotation/" + vkey, e3r, caseJ(a, i).vec("X", X.coeffs()).vec("log", t.coeffs()).d("err", e3r).str());
   if (!(e3 <= tolAt(th)))
     LOG.viol("exp-of-log/" + vkey, e3, caseJ(a, i).vec("X", X.coeffs()).vec("log", t.coeffs()).d("err", e3).d("tol", TOL()).str());
   // (vi) agreement with the model logarithm (skipped within 1e-7 of the cut locus where the axis sign is ambiguous)
@@ -80,7 +92,7 @@ static void checkElement(const MonG& X, const std::string& route, const std::str
 void runCase(long long i, Prng& r, const Args& a) {
   const ref::Group& g = RG();
   std::string label;
-  int route = (int)(i % 7);
+  int route = (int)(i % 8);
   GenOpt o; o.thetaMax = PI; o.nearPiMin = 0; o.linMax = 1e6;
   if (route == 0 || route == 1) {  // independently built element, both hemispheres
     std::vector<MonS> c = genElement<MonS>(g, r, o, label);
@@ -128,6 +140,20 @@ void runCase(long long i, Prng& r, const Args& a) {
     auto cls = [](double v) { return v >= 1e-6 ? ">=1e-6" : v >= 1e-9 ? "[1e-9,1e-6)" : "<1e-9"; };
     std::string lb = std::string("2pi-eps") + cls(d1 + d2) + "/tilt" + cls(tilt);
     checkElement(X, "near-pi-product", lb, i, a);
+  } else if (route == 7) {  // elements given by exact coefficients: pure quaternions (w = +0 / -0: exact half turns), signed zeros, axis-aligned and 3-4-5 values
+    static const double Q[][4] = {{1, 0, 0, 0}, {0, 1, 0, 0}, {0, 0, 1, 0}, {0.6, 0, 0.8, 0}, {-0.6, 0.8, 0, 0}, {0, -0.28, 0.96, 0}, {0, 0, 0, 1}, {0, 0, 0, -1},
+                                  {0.5, 0.5, 0.5, 0.5}, {0.5, -0.5, 0.5, -0.5}, {0.6, 0, 0, 0.8}, {0, 0.8, 0, -0.6}, {0, 0, 0.28, 0.96}, {0.96, 0, 0, -0.28}};
+    static const double C[][2] = {{-1, 0}, {0, 1}, {0, -1}, {1, 0}, {0.6, 0.8}, {-0.6, 0.8}, {-0.8, -0.6}, {0.28, -0.96}, {-0.96, 0.28}};
+    typename MonG::DataType c; c.setZero(); std::string lb = "exact";
+    for (int b = 0; b < g.nb(); ++b) {
+      const ref::Elem& e = g.el[b]; const int ro = g.repOff[b];
+      for (int k = 0; k < e.rep; ++k) c(ro + k) = (MonS)(r.coin(0.3) ? 0.0 : r.uni(-2, 2));   // linear / time coefficients
+      if (e.rot == 3) { int q = r.below((int)(sizeof Q / sizeof Q[0])); for (int k = 0; k < 4; ++k) { double v = Q[q][k]; if (v == 0 && r.coin(0.5)) v = -0.0; c(ro + e.rotCoef + k) = (MonS)v; } if (Q[q][3] == 0) lb = "exact/w=0"; }
+      if (e.rot == 2) { int q = r.below((int)(sizeof C / sizeof C[0])); for (int k = 0; k < 2; ++k) { double v = C[q][k]; if (v == 0 && r.coin(0.5)) v = -0.0; c(ro + e.rotCoef + k) = (MonS)v; } if (C[q][0] == -1) lb = "exact/real=-1"; }
+    }
+    MonG X;
+    try { X = MonG(c); } catch (const std::exception& e) { LOG.viol("valid-coefficients-rejected/" + GN(), 1, caseJ(a, i).vec("c", c).s("what", e.what()).str()); return; }
+    checkElement(X, "exact-coefficients", lb, i, a);
   } else if (route == 5) {  // the library's own Random()
     MonG X = MonG::Random();
     checkElement(X, "Random", "random", i, a);
